@@ -27,6 +27,8 @@ fn main() {
         }
         PairScenario { dirs: [dir.clone(), dir], keepalive_ms: Some(5000), seed: 1, zero_ch: 0, zero_mode: 1, links: [LinkCfg { latency_us: 10_000, fates: vec![] }, LinkCfg { latency_us: 10_000, fates: vec![] }], ticks, tail: None }
     };
+    let mut sc = sc;
+    sc.normalize();
     let mut sim = SimPair::new(&sc);
     for (i, t) in sc.ticks.iter().enumerate() {
         sim.run_tick(t);
@@ -47,4 +49,30 @@ fn main() {
             sim.hc[0].send_buffer_size()
         );
     }
+    if let Some(tail) = &sc.tail {
+        sim.fair = true;
+        let e: usize = std::env::var("VDEBUG_EP").ok().and_then(|s| s.parse().ok()).unwrap_or(1);
+        let mut last = String::new();
+        let maxi: u64 = std::env::var("VDEBUG_STEPS").ok().and_then(|s| s.parse().ok()).unwrap_or(200000); for i in 0..maxi {
+            sim.advance(if i > 20000 { 50_000 } else { tail.step_us as u64 });
+            sim.endpoint_step(0);
+            sim.endpoint_step(1);
+            let st = sim.hc[e].verif_stats();
+            let line = format!("wire={} peer_wire={} deliv_at_peer={} rate={} rtt={:?} sq={} pq={} rq={} sbs={}", sim.trace.wire[e].len(), sim.trace.wire[1-e].len(), sim.trace.delivs[1-e].len(), st.send_rate, sim.hc[e].rtt_s(), st.send_queue_len, st.pending_queue_len, st.resend_queue_len, sim.hc[e].send_buffer_size());
+            if line != last {
+                println!("tail {i} t={}us falloc={} {}", sim.now_us, st.flush_alloc, line);
+                last = line;
+            }
+            if sim.quiescent() { println!("quiescent at {}", sim.now_us); break; }
+        }
+        use uflow::verif::Serialize;
+        for e in 0..2 {
+            let n = sim.trace.wire[e].len(); let skip: usize = std::env::var("VDEBUG_SKIP").ok().and_then(|s| s.parse().ok()).unwrap_or(0); for w in sim.trace.wire[e].iter().skip(skip.min(n)).take(40) {
+                let f = uflow::verif::Frame::read(&w.bytes);
+                let s = format!("{:?}", f);
+                println!("ep{e} t={} {:?} {}", w.t_us, w.fate, &s[..s.len().min(200)]);
+            }
+        }
+    }
 }
+
